@@ -177,3 +177,82 @@ def pool_arg_sets():
                 an._allocated_signals |= set(allocated)
                 out.append({"self": an})
     return out
+
+
+# =================================================================================================
+# ExpressionLowerer._try_fold_projection_into_source (C13, C01): `expr | "signal-T"` may retype the node that computes expr
+# instead of adding a combinator.  Then the target signal is IN USE from that moment: it must be recorded in the signal
+# type map (the allocator excludes exactly the recorded names when it later picks signals for untyped values), the node
+# must output on the target signal, and the reference returned must be to the same node with the target type.  Folding is
+# allowed only for arithmetic nodes and constant-output deciders that are not declared and not bound to a variable; in
+# every other case nothing may change.  Scenarios: 0..2 variables in scope (bounded), everything else symbolic.
+# =================================================================================================
+from pyvc.ghost import ghost as _ghost13, isa as _isa13  # noqa: E402
+from pyvc.values import SObj as _SObj13  # noqa: E402
+from spec.ops import And as _And13, Not as _Not13, Implies as _Imp13  # noqa: E402
+
+ELQ13 = "dsl_compiler/src/lowering/expression_lowerer.py::ExpressionLowerer."
+_OPQ13 = ty.TOpaque("x")
+_NODE13 = ty.TOpt(ty.TObj("IRNode", only=("IRArith", "IRDecider", "IRConst", "IRMemRead"), ftypes=(
+    ("output_type", ty.Str), ("copy_count_from_input", ty.Bool), ("debug_metadata", ty.TRecord((("user_declared", ty.Bool),))))))
+_REF13 = ty.TObj("SignalRef", only=("SignalRef",))
+REG13 = []
+
+
+def _get_op13(ex, a):
+    return _ghost13(ex.args_ns.source_ref, "node", _NODE13)
+
+
+def _ensure13(ex, a):
+    REG13.append((a.signal_key, a.signal_type))
+    return None
+
+
+def _fold_post13(n_names):
+    def post(a, res):
+        ref = a.source_ref
+        node = ref._fields.get("@node")
+        tmap, old_map = a.self.ir_builder.signal_type_map, a.old.self.ir_builder.signal_type_map
+        k = z3.String("any_key")
+        if res is None:
+            if REG13:
+                return False
+            cs = [z3.ForAll([k], _And13(z3.Select(tmap.present, k) == z3.Select(old_map.present, k), z3.Select(tmap.vals, k) == z3.Select(old_map.vals, k)))]
+            if node is not None:
+                from pyvc.values import OldView
+                cs.append(node.output_type == OldView(node, {}).output_type)
+            return _And13(*cs)
+        if node is None:
+            return False
+        named = [r for r in a.self.parent.signal_refs.values() if isinstance(r, _SObj13)]
+        cs = [_isa13(node, "IRArith") or _isa13(node, "IRDecider"),
+              _Not13(node.debug_metadata["user_declared"]),
+              node.output_type == a.target_type,
+              z3.Select(tmap.present, a.target_type), z3.Select(tmap.vals, a.target_type) == a.target_type,
+              res.signal_type == a.target_type, res.source_id == ref.source_id, res is not ref]
+        if _isa13(node, "IRDecider"):
+            cs.append(_Not13(node.copy_count_from_input))
+        cs += [r.source_id != ref.source_id for r in named]
+        # nothing else leaves the map except the implicit placeholder the node had before
+        cs.append(z3.ForAll([k], _Imp13(_And13(z3.Select(old_map.present, k), _Not13(z3.PrefixOf(z3.StringVal("__implicit_"), k))), z3.Select(tmap.present, k))))
+        return _And13(*[c if not isinstance(c, bool) else z3.BoolVal(c) for c in cs])
+    return post
+
+
+for _n in (0, 1, 2):
+    _names = {f"v{i}": _SObj13(["SignalRef"], f"named{i}", lazy=True, field_types={"source_id": ty.Str, "signal_type": ty.Str}) for i in range(_n)}
+    CONTRACTS.append(Contract(
+        qualname=ELQ13 + "_try_fold_projection_into_source",
+        params={"self": ty.TObj("ExpressionLowerer", only=("ExpressionLowerer",)), "source_ref": _REF13, "target_type": ty.Str, "proj_expr": ty.TObj("ProjectionExpr", only=("ProjectionExpr",))},
+        requires=[("(reset capture)", lambda a: REG13.clear() or True)],
+        ensures=[("folded only for unnamed arithmetic / constant-output decider nodes, and then the target signal is recorded as in use; otherwise nothing changes", _fold_post13(_n))],
+        uses={"IRBuilder.get_operation": Contract(qualname="dsl_compiler/src/ir/builder.py::IRBuilder.get_operation", params={"self": _OPQ13, "node_id": _OPQ13}, effect=_get_op13,
+                                                  verify=False, note="dictionary lookup: the producer node of the reference"),
+              "ASTLowerer.ensure_signal_registered": Contract(qualname="dsl_compiler/src/lowering/lowerer.py::ASTLowerer.ensure_signal_registered",
+                                                          params={"self": _OPQ13, "signal_key": _OPQ13, "signal_type": _OPQ13}, defaults={"signal_type": None},
+                                                          effect=_ensure13, verify=False, note="registers the name with the signal registry (C13 pool box)"),
+              "ExpressionLowerer._attach_expr_context": "skip"},
+        dynamic_types={"self": {"ir_builder": ty.TObj("IRBuilder", only=("IRBuilder",)), "parent": ty.TObj("ASTLowerer", only=("ASTLowerer",)), "diagnostics": ty.TOpaque("diag")},
+                       "self.ir_builder": {"signal_type_map": ty.TDict(ty.Str, ty.Str)}, "self.parent": {"signal_refs": ty.TConcrete(_names)},
+                       "source_ref": {"debug_label": ty.TOpt(ty.Str), "debug_metadata": ty.TConcrete({}), "source_ast": ty.TConcrete(None)}},
+        properties=("C13", "C01"), min_obligations=2, no_replay=True, note=f"{_n} variables in scope"))
